@@ -1,2 +1,5 @@
 import AvoVerif.Drv.C02
-def main : IO Unit := Avo.Drv.mainLoop Avo.Drv.C02.handlers
+import AvoVerif.Drv.C09
+-- C02's driver also answers C09's acceptor: the control-flow graph liveness runs on is judged against the
+-- opcode-derived control-flow specification.
+def main : IO Unit := Avo.Drv.mainLoop (Avo.Drv.C02.handlers ++ Avo.Drv.C09.handlers.filter (fun h => h.1 == "accept-cfg"))
